@@ -43,3 +43,14 @@ package standalone
 //@   props C03 C02
 //@   modifies fresh
 //@   ensures false
+
+// C03: where the remote repository's storage lies is asked of Git with none of
+// the caller's GIT_* variables in the environment (under a hook GIT_DIR points
+// at the *local* repository: with it, the "remote" would be the local one and
+// an upload would be reported complete without anything being copied).
+//@ func gitDirAtPath
+//@   props C03
+//@   loop 1 iter n > iter(n) ==> n == iter(n) + 1
+//@   loop 1 iter n > iter(n) ==> !str_hasprefix(val, "GIT_")
+//@   loop 1 iter n >= iter(n)
+//@   at call (*subprocess.Cmd).Output:1 assert @C03 len(cmd.Cmd.Env) == n
